@@ -91,6 +91,7 @@ def gen_case(rng, tier):
             nd = rng.choice((1, 1, 2, 3))
             op["dgms"] = [gen_dgm(rng, allow_empty=rng.random() < 0.3) for _ in range(nd)]
             op["as_list"] = nd > 1 or rng.random() < 0.5
+            op["int_arrays"] = rng.random() < 0.3
             o = {}
             if rng.random() < 0.3:
                 o["lifetime"] = True
@@ -113,6 +114,12 @@ def gen_case(rng, tier):
             if rng.random() < 0.5 and op["a"]:
                 op["b"] = dgmgen.perturbed_copy(rng, op["a"], 1.0, 6, "float")
             op["mode"] = rng.choice(("uniform", "reverse", "insertion"))
+            if rng.random() < 0.35:      # integer-valued diagrams, handed over as integer arrays
+                op["a"] = [[float(round(x)) for x in p] for p in op["a"]]
+                op["b"] = [[float(round(x)) for x in p] for p in op["b"]]
+                op["a"] = [[p[0], max(p)] for p in op["a"]]
+                op["b"] = [[p[0], max(p)] for p in op["b"]]
+                op["int_arrays"] = True
             if rng.random() < 0.3:
                 op["labels"] = ["first", "second"]
         else:
@@ -384,6 +391,8 @@ def run_case(case, sched):
                 if "labels" in opts and isinstance(opts["labels"], list) and len(opts["labels"]) != len(dg):
                     raise InvalidCase("labels")
                 arrs = [np.array(d, dtype=float).reshape(-1, 2) for d in dg]
+                if op.get("int_arrays"):
+                    arrs = [a.astype(np.int64) if np.isfinite(a).all() and np.all(a == np.round(a)) else a for a in arrs]
                 arg = arrs if (op.get("as_list", True) or len(arrs) > 1) else arrs[0]
                 V.plot_diagrams(arg, ax=given, **opts)
             elif kind in ("bottleneck_matching", "wasserstein_matching"):
@@ -394,6 +403,8 @@ def run_case(case, sched):
                     raise InvalidCase("finite diagrams")
                 Aa = np.array(A, dtype=float).reshape(-1, 2) if A else np.zeros((0, 2))
                 Ba = np.array(B, dtype=float).reshape(-1, 2) if B else np.zeros((0, 2))
+                if op.get("int_arrays") and all(float(x).is_integer() for p in A + B for x in p):
+                    Aa, Ba = Aa.astype(np.int64), Ba.astype(np.int64)
                 if kind == "bottleneck_matching":
                     _, rows, _ = mc.call_bottleneck(sched, Aa, Ba, True, op.get("mode", "uniform"), "ignore")
                 else:
